@@ -67,6 +67,10 @@ WRAPS = SIM_WRAPS + ["coap_dtls_send", "coap_dtls_handle_timeout", "coap_retrans
                      "gnutls_dtls_cookie_send", "gnutls_init"]
 
 
+TLS_WRAPS = ["coap_tls_write", "coap_free_type", "coap_netif_strm_write", "coap_io_process_lkd", "connect", "gnutls_handshake",
+             "gnutls_record_recv", "gnutls_record_send", "gnutls_bye", "gnutls_alert_send", "gnutls_init"]
+
+
 def harness(ctx):
     bdir = C.build_libcoap()
     out = os.path.join(bdir, "h_dtls")
@@ -75,6 +79,17 @@ def harness(ctx):
         os.unlink(out)
     h = C.build_harness("dtls", bdir, wraps=WRAPS)
     return [sys.executable, os.path.join(C.VERIF, "harness", "dtls_pipe.py"), h, C.driver_path()]
+
+
+def harness_tls(ctx):
+    """TLS over TCP: real loopback sockets (harness/tls.c), same pipe (segments replayed through M by op `tlsgate`)"""
+    h = C.build_harness("tls", C.build_libcoap(), wraps=TLS_WRAPS)
+    return [sys.executable, os.path.join(C.VERIF, "harness", "dtls_pipe.py"), h, C.driver_path()]
+
+
+HARNESS_FOR_OP = {"tls": harness_tls}
+# real sockets and real time: fewer, larger shards are not needed — every scenario costs ~15 ms of waiting for quiescence
+RUN_KW_FOR_OP = {"tls": {"shards": 16}}
 
 
 # ------------------------------------------------------------------ generator
@@ -169,9 +184,41 @@ def gen_line(rng, cred=None, q=None):
     return "dtls " + " ".join(w)
 
 
-def generate(ctx, escalate=False):
+# TLS over TCP: how the TCP connect, the server's accept and the first coap_send() interleave (harness/tls.c)
+TLS_SCHED = [[], ["conn=prog"], ["conn=prog", "acc=early"], ["conn=prog", "wait=client"], ["conn=prog", "acc=early", "wait=client"]]
+
+
+def gen_tls_line(rng, cred=None, q=None, sched=None):
+    label, words = cred if cred else rng.choice(CREDS)
+    w = list(words) + list(sched if sched is not None else rng.choice(TLS_SCHED))
+    w.append("q=" + (q if q is not None else rng.choice(QS)))
+    if rng.random() < 0.1:
+        w.append("rel=now")
+    rng.shuffle(w)
+    return "tls " + " ".join(w)
+
+
+def generate_tls(ctx, escalate=False):
     rng = ctx.rng
     out = []
+    # every credential configuration x every schedule, with a queue that has a CON in it (rotating) …
+    qs = ["C", "CN", "NC", "CCC", "NCN", "CC", "N", ""]
+    k = 0
+    for cred in CREDS:
+        for sch in TLS_SCHED:
+            for q in (QS if ctx.thorough() else [qs[k % len(qs)]]):
+                out.append("tls " + " ".join(list(cred[1]) + sch + ["q=" + q]))
+            k += 1
+    n = 4000 if ctx.thorough() else 400
+    if escalate:
+        n *= 2
+    out += [gen_tls_line(rng) for _ in range(n)]
+    return out
+
+
+def generate(ctx, escalate=False):
+    rng = ctx.rng
+    out = generate_tls(ctx, escalate)
     # every credential configuration x every queue, loss-free
     for cred in CREDS:
         for q in (QS if ctx.thorough() else ["", "C", "N", "CN", "NC", "CCC", "NCN"]):
@@ -181,6 +228,10 @@ def generate(ctx, escalate=False):
         n *= 2
     out += [gen_line(rng) for _ in range(n)]
     return out
+
+
+def is_tls(line):
+    return line.startswith("tls ")
 
 
 # ------------------------------------------------------------------ reading a canonical line
@@ -226,12 +277,16 @@ def oracle(inp, isegs, wire, expect):
     cfg = cfg_of(inp)
     q = cfg.get("q", "")
     fates = cfg.get("f", "")
+    tls = is_tls(inp)
     segs = parse_segments(isegs)
     if wire.get("cleartext") != "no":
-        return "a datagram of the DTLS session / endpoint is not a DTLS record, was written outside the TLS library or carries a queued payload in clear (wire %s)" % wire
+        return "a datagram / TCP write of the (D)TLS session / endpoint is not made of (D)TLS records, was written outside the TLS library or carries a queued payload in clear (wire %s)" % wire
+    if tls and wire.get("wd") != "0":
+        return "the scenario did not come to rest within the watchdog time (wire %s)" % wire
     hs_ok = {"c": False, "s": False, "t": False}
     ever_est = {"c": False, "s": False, "t": False}
     first_tx, nacks, rsps, reqs = [], {}, {}, []
+    refused = set()
     released = False
     created = True
     for k, sg in enumerate(segs):
@@ -241,7 +296,7 @@ def oracle(inp, isegs, wire, expect):
                 hs_ok[who] = True
             if o == "!foreign":
                 return "segment %d (%s): an oracle answer of another session" % (k, sg["ev"])
-        if sg["ev"] == "new:fail":
+        if sg["ev"] in ("new:fail", "tnew:fail"):
             created = False
         if sg["st"].startswith("st=4"):
             ever_est[who] = True
@@ -272,6 +327,8 @@ def oracle(inp, isegs, wire, expect):
             if who == "c" and o.startswith("nack:"):
                 _, reason, tok = o.split(":")
                 nacks.setdefault(tok, []).append((reason, k, released))
+            if who == "c" and o == "sendfail" and sg["ev"].startswith("tsend"):
+                refused.add(sg["ev"].split(":")[2])          # coap_send() itself said no: the request was never queued
         if who == "c" and sg["ev"] == "rel":
             released = True
     if expect in ("fail", "nosession") and (hs_ok["c"] or hs_ok["s"]):
@@ -283,6 +340,15 @@ def oracle(inp, isegs, wire, expect):
     if not created:
         return "coap_new_client_session_psk2 failed for a usable configuration"
     toks = ["%02x" % (i + 1) for i in range(len(q))]
+    if tls:
+        # CoAP over TCP has no message types: coap_send() turns every PDU into CON, so a request submitted as NON may be
+        # NACKed like a CON (at most once); a request coap_send() refused synchronously was never queued
+        for t in refused:
+            if nacks.get(t) or t in first_tx:
+                return "request %s was refused by coap_send() and still NACKed / written (%s)" % (t, nacks.get(t))
+        q = "".join(kd for t, kd in zip(toks, q) if t not in refused)
+        toks = [t for t in toks if t not in refused]
+    nack_ok = ("tls", "tlslayer", "undeliv") if tls else ("tls", "tlslayer")
     if not hs_ok["c"]:
         # never established on the client: nothing written, one NACK per queued CON, none for NON
         if ever_est["c"]:
@@ -292,11 +358,11 @@ def oracle(inp, isegs, wire, expect):
             if kind == "C":
                 if len(ns) != 1:
                     return "queued CON %s was reported by %d NACKs (%s), expected exactly one (handshake never completed)" % (t, len(ns), ns)
-                if ns[0][0] not in ("tls", "tlslayer"):
+                if ns[0][0] not in nack_ok:
                     return "queued CON %s NACKed with reason %s, expected a TLS failure" % (t, ns[0][0])
                 if ns[0][2]:
                     return "queued CON %s NACKed only after the session had been released" % t
-            elif ns:
+            elif ns and not (tls and len(ns) == 1 and not ns[0][2]):
                 return "queued NON %s was NACKed (%s)" % (t, ns)
         if reqs or rsps:
             return "handler calls without a completed handshake: %s %s" % (reqs, rsps)
@@ -312,7 +378,7 @@ def oracle(inp, isegs, wire, expect):
             # never written: the session went away first -> exactly one NACK for a CON
             if kind == "C" and len(ns) != 1:
                 return "queued CON %s was never written and reported by %d NACKs (%s)" % (t, len(ns), ns)
-            if kind == "N" and ns:
+            if kind == "N" and ns and not (tls and len(ns) == 1):
                 return "queued NON %s was NACKed (%s)" % (t, ns)
         elif kind == "C" and not ns and not rsps.get(t):
             return "queued CON %s was written but has neither a response nor a NACK at the end" % t
@@ -357,7 +423,7 @@ def judge(ctx, c):
 def nontrivial(c):
     i = c["impl"] or ""
     m = re.search(r"wire n=(\d+)", i)
-    return bool(m) and int(m.group(1)) >= 3 and "q=" in c["input"] and "q= " not in c["input"] + " " and " c:send:" in i
+    return bool(m) and int(m.group(1)) >= 3 and "q=" in c["input"] and "q= " not in c["input"] + " " and (" c:send:" in i or " c:tsend" in i)
 
 
 def classify(c):
@@ -365,7 +431,8 @@ def classify(c):
     m = c["model"] or ""
     hs = re.search(r"hs c=(\w+) s=(\w+)", i)
     cfg = cfg_of(c["input"])
-    return "%s hs=%s q=%d%s%s%s" % (m.strip(), hs.group(1) if hs else "?", len(cfg.get("q", "")),
+    return "%s%s hs=%s q=%d%s%s%s" % ("tls " + " ".join(sorted(w for w in c["input"].split() if w.split("=")[0] in ("conn", "acc", "wait"))) + " "
+                                     if is_tls(c["input"]) else "", m.strip(), hs.group(1) if hs else "?", len(cfg.get("q", "")),
                                    " loss" if "x" in cfg.get("f", "") else "", " dup" if "2" in cfg.get("f", "") else "",
                                    " inj" if "inj" in cfg else "")
 
@@ -375,6 +442,13 @@ def search(ctx, tie_breaks, proof):
     out = []
     for c in tie_breaks[:20]:
         w = c["input"].split()[1:]
+        if is_tls(c["input"]):
+            # same credentials under every schedule and queue
+            creds = [x for x in w if x.split("=")[0] not in ("q", "conn", "acc", "wait", "rel")]
+            for sch in TLS_SCHED:
+                for q in QS:
+                    out.append("tls " + " ".join(creds + sch + ["q=" + q]))
+            continue
         for _ in range(60):
             t = [x for x in w if not x.startswith("f=")]
             f = gen_fate(rng)
@@ -382,6 +456,7 @@ def search(ctx, tie_breaks, proof):
                 t.append("f=" + f)
             out.append("dtls " + " ".join(t))
     out += [gen_line(rng) for _ in range(3000)]
+    out += [gen_tls_line(rng) for _ in range(300)]
     return out
 
 
@@ -390,6 +465,7 @@ def shrink(ctx, case):
     from vlib.runner import diff_side
     import props.C19 as me
     best = case
+    op = case["input"].split(" ", 1)[0]
     for _ in range(6):
         w = best["input"].split()[1:]
         cands = [w[:i] + w[i + 1:] for i in range(len(w))]
@@ -397,7 +473,7 @@ def shrink(ctx, case):
             if x.startswith("f=") and len(x) > 3:
                 cands.append(w[:i] + [x[:-1]] + w[i + 1:])
                 cands.append(w[:i] + ["f=" + x[2:].replace("2", "d", 1)] + w[i + 1:])
-        lines = ["dtls " + " ".join(t) for t in cands if t]
+        lines = [op + " " + " ".join(t) for t in cands if t]
         found = None
         for cc in diff_side(ctx, me, lines):
             v = judge(ctx, cc)
